@@ -91,7 +91,7 @@ func derLen(n int) []byte {
 // berStyle selects a BER re-encoding of the same abstract value.
 type berStyle struct {
 	indefinite bool // every non-empty constructed encoding uses the indefinite form + end-of-contents
-	longShort  bool // every length < 128 is written in the long form 0x81 nn
+	longShort  bool // every length 1..127 is written in the long form 0x81 nn
 }
 
 // encode re-serialises the node in the chosen BER style. count receives the number of places where the
@@ -113,7 +113,8 @@ func (n *tlv) encode(st berStyle, count *int) []byte {
 		out = append(out, body...)
 		return append(out, 0, 0)
 	}
-	if st.longShort && len(body) < 0x80 {
+	if st.longShort && len(body) > 0 && len(body) < 0x80 {
+		// (length 0 stays "00": the library's no-leading-zero rule also refuses "81 00", see Assumptions)
 		*count++
 		out = append(out, 0x81, byte(len(body)))
 	} else {
